@@ -1117,6 +1117,21 @@ Proof.
   apply Z.ltb_lt in Hc. rewrite Hc in H. rewrite Hh in H. apply spec_read_sound. exact H.
 Qed.
 
+(* both endpoints of the median server answer what the property prescribes for the submitted updates: the
+   all-markets answer for every market, and the single-market answer of a market for that market *)
+Theorem check_server_sound maxAge ups ps readT all singles :
+  check_server maxAge ups ps readT all singles = [] ->
+  (forall m, aget all m = served_spec (fresh_of_history (flat_updates ups) m (readT - maxAge)) ps m) /\ (forall m r, In (m, r) singles ->
+     r = served_spec (fresh_of_history (flat_updates ups) m (readT - maxAge)) (filter (fun p => mp_id p =? m) ps) m).
+Proof.
+  unfold check_server. intros H. apply app_nil_both in H. destruct H as [H1 H]. apply app_nil_both in H. destruct H as [_ H].
+  split; [apply spec_read_sound; exact H1|].
+  intros m r Hin. pose proof (flat_map_nil _ _ H (m, r) Hin) as Hm. cbv beta iota zeta in Hm.
+  apply app_nil_both in Hm. destruct Hm as [Hm _].
+  pose proof (spec_read_sound _ _ _ _ Hm m) as Hs. rewrite <- Hs.
+  destruct r as [v|]; cbn [single_answer aget]; [rewrite Z.eqb_refl|]; reflexivity.
+Qed.
+
 (* ====================================================================================== *)
 (* D. non-vacuity                                                                           *)
 (* ====================================================================================== *)
